@@ -2,7 +2,7 @@
 import ast
 import os
 
-from ..astq import is_name, is_self_attr, parse_fixture
+from ..astq import facts_of, is_name, is_self_attr, parse_fixture
 from ..callgraph import CallGraph
 from ..cfg import CFG
 from ..core import AnalysisError, norm, walk_local, FuncInfo
@@ -133,8 +133,7 @@ def run(repo, chk):
     chk.ob("R17.3", "package:no-direct-completion", not completers, "ptera/", f"ptera never completes or errors observers itself {completers}")
     # emitters are installed as the handler slots of the rules
     mr = repo.func("probe.Probe._make_rule")
-    t = norm(mr.node)
-    chk.ob("R17.3", "probe.Probe._make_rule:emitter-is-the-handler", "trigger=self._make_emitter(sel)" in t and "close=self._make_emitter(sel)" in t, mr.where,
+    chk.ob("R17.3", "probe.Probe._make_rule:emitter-is-the-handler", facts_of(mr).mentions("trigger=self._make_emitter(sel)") and facts_of(mr).mentions("close=self._make_emitter(sel)"), mr.where,
            "the only handler attached to a probe's selector is its emitter")
     # dependency summary, re-derived
     src = giving_source()
